@@ -8,8 +8,9 @@ package main
 // "who was consulted" through recording wrappers, gate-before-sampler.
 
 import (
+	"errors"
 	"fmt"
-	"io"
+	stdlog "log"
 	"math"
 	"strings"
 	"sync"
@@ -44,6 +45,107 @@ type gateCfg struct {
 type ev struct {
 	Now int64 `json:"now"`
 	Lvl int   `json:"lvl"`
+	// Entry: the entry point the event comes in through ("" = WithLevel(Lvl)); every entry point ends in
+	// the same gate and sampler, so the model sees only the level the entry point stands for
+	Entry string `json:"entry,omitempty"`
+}
+
+// entryLevels: every Logger entry point that ends in the sampler, with the level it creates events at
+// (Fatal is left out: it ends the process; Panic runs under recover)
+var entryLevels = []struct {
+	name string
+	lvl  int
+}{{"Trace", -1}, {"Debug", 0}, {"Info", 1}, {"Warn", 2}, {"Error", 3}, {"Err(nil)", 1}, {"Err(err)", 3}, {"Panic", 5}, {"Log", 6},
+	{"Print", 0}, {"Printf", 0}, {"Println", 0}, {"Write", 6}, {"Fprintf", 6}, {"stdlog", 6}}
+
+func entriesFor(lvl int) []string {
+	out := []string{""}
+	for _, e := range entryLevels {
+		if e.lvl == lvl {
+			out = append(out, e.name)
+		}
+	}
+	return out
+}
+
+func entryLevel(name string) (int, bool) {
+	for _, e := range entryLevels {
+		if e.name == name {
+			return e.lvl, true
+		}
+	}
+	return 0, false
+}
+
+var errC13 = errors.New("e")
+
+// fire sends one event through its entry point; admitted = it reached the writer (for the entry points
+// that hand out the event, also: the event is non-nil exactly when it is written).
+func fire(l *zerolog.Logger, w *countWriter, e ev) bool {
+	before := w.n
+	var evt *zerolog.Event
+	isEvt := true
+	switch e.Entry {
+	case "":
+		evt = l.WithLevel(zerolog.Level(e.Lvl))
+	case "Trace":
+		evt = l.Trace()
+	case "Debug":
+		evt = l.Debug()
+	case "Info":
+		evt = l.Info()
+	case "Warn":
+		evt = l.Warn()
+	case "Error":
+		evt = l.Error()
+	case "Err(nil)":
+		evt = l.Err(nil)
+	case "Err(err)":
+		evt = l.Err(errC13)
+	case "Log":
+		evt = l.Log()
+	default:
+		isEvt = false
+		switch e.Entry {
+		case "Print":
+			l.Print("x")
+		case "Printf":
+			l.Printf("%d", 1)
+		case "Println":
+			l.Println("x")
+		case "Write":
+			l.Write([]byte("x\n"))
+		case "Fprintf":
+			fmt.Fprintf(l, "x")
+		case "stdlog":
+			stdlog.New(l, "", 0).Print("x")
+		case "Panic":
+			func() {
+				defer func() { recover() }()
+				l.Panic().Msg("")
+			}()
+		default:
+			panic("unknown entry point " + e.Entry)
+		}
+	}
+	if lv, ok := entryLevel(e.Entry); ok && lv != e.Lvl {
+		panic(fmt.Sprintf("driver: entry %s stands for level %d, event says %d", e.Entry, lv, e.Lvl))
+	}
+	written := w.n - before
+	if isEvt {
+		admitted := evt != nil
+		evt.Msg("")
+		written = w.n - before
+		if admitted != (written == 1) {
+			// an admitted event is written exactly once (levels here are never Disabled)
+			panic(fmt.Sprintf("admitted=%v but writes=%d", admitted, written))
+		}
+		return admitted
+	}
+	if written > 1 {
+		panic(fmt.Sprintf("one %s call wrote %d times", e.Entry, written))
+	}
+	return written == 1
 }
 
 // recorder wraps a sampler and records that it was consulted (monitor only).
@@ -203,16 +305,7 @@ func runGateImpl(g gateCfg, h []ev, rec *[]recCall) ([]bool, *built) {
 	out := make([]bool, len(h))
 	for i, e := range h {
 		c13now = e.Now
-		before := w.n
-		evt := l.WithLevel(zerolog.Level(e.Lvl))
-		admitted := evt != nil
-		evt.Msg("")
-		if admitted != (w.n == before+1) {
-			// an admitted event is written exactly once (levels here are never Disabled)
-			out[i] = admitted
-			panic(fmt.Sprintf("admitted=%v but writes=%d", admitted, w.n-before))
-		}
-		out[i] = admitted
+		out[i] = fire(&l, w, e)
 	}
 	return out, b
 }
@@ -307,7 +400,11 @@ func genHistory(r *Rng, n int, extreme bool) []ev {
 		if r.Chance(50) {
 			lv = c13levels[r.Intn(len(c13levels))]
 		}
-		h[i] = ev{now, lv}
+		h[i] = ev{Now: now, Lvl: lv}
+		if r.Chance(40) {
+			es := entriesFor(lv)
+			h[i].Entry = es[r.Intn(len(es))]
+		}
 	}
 	return h
 }
@@ -358,8 +455,9 @@ func c13monitor(c *Ctx, g gateCfg, h []ev, got []bool) {
 	zerolog.TimestampFunc = func() time.Time { return time.Unix(0, c13now) }
 	setGlobals(g, len(h))
 	var l zerolog.Logger
+	w3 := &countWriter{}
 	if g.HasWriter {
-		l = zerolog.New(io.Discard)
+		l = zerolog.New(w3)
 	}
 	l = l.Level(zerolog.Level(g.Level))
 	if b3 != nil {
@@ -376,9 +474,7 @@ func c13monitor(c *Ctx, g gateCfg, h []ev, got []bool) {
 	for i, e := range h {
 		c13now = e.Now
 		rec3 = rec3[:0]
-		evt := l.WithLevel(zerolog.Level(e.Lvl))
-		adm := evt != nil
-		evt.Msg("")
+		adm := fire(&l, w3, e)
 		pass := g.HasWriter && e.Lvl >= g.Level && e.Lvl >= g.Global
 		if !pass {
 			if adm {
@@ -407,13 +503,22 @@ func c13monitor(c *Ctx, g gateCfg, h []ev, got []bool) {
 			viol("top-sampler-not-deciding", "gate", fmt.Sprintf("event %d: decision is not the top sampler's", i), nil)
 			break
 		}
+		// how often the logger's sampler was consulted for this one event (reported with a share violation:
+		// one event spends one slot, whichever entry point it came through)
+		n0 := 0
+		for _, rc := range rec3 {
+			if rc.id == 0 {
+				n0++
+			}
+		}
+		via := fmt.Sprintf(" [event %d: entry %q, level %d, logger's sampler consulted %d time(s)]", i, e.Entry, e.Lvl, n0)
 		if freshBasic {
 			// counter preset c0: decision i (among passing events) is (c0+i) mod N == 0, valid while no wrap
 			idx := uint64(top.Cnt) + passed
 			if idx+1 < 1<<32 {
 				want := idx%uint64(top.N) == 0
 				if adm != want {
-					viol("basic-share", "basic-every-nth", fmt.Sprintf("BasicSampler{N:%d}: sampled event #%d (counter %d) decided %v, want %v", top.N, passed, idx, adm, want), want)
+					viol("basic-share", "basic-every-nth", fmt.Sprintf("BasicSampler{N:%d}: sampled event #%d (counter %d) decided %v, want %v", top.N, passed, idx, adm, want)+via, want)
 					break
 				}
 			} else {
@@ -460,16 +565,16 @@ func c13monitor(c *Ctx, g gateCfg, h []ev, got []bool) {
 				}
 				if wSeen <= uint64(top.Burst) {
 					if !adm || nextCalls != 0 {
-						viol("burst-window", "burst-window-spec", fmt.Sprintf("event %d is number %d of its window (Burst=%d) but admitted=%v nextCalls=%d", i, wSeen, top.Burst, adm, nextCalls), true)
+						viol("burst-window", "burst-window-spec", fmt.Sprintf("event %d is number %d of its window (Burst=%d) but admitted=%v nextCalls=%d", i, wSeen, top.Burst, adm, nextCalls)+via, true)
 						break
 					}
 				} else if top.Next == nil {
 					if adm {
-						viol("burst-window", "burst-window-spec", fmt.Sprintf("event %d is number %d of its window (Burst=%d), no NextSampler, but admitted", i, wSeen, top.Burst), false)
+						viol("burst-window", "burst-window-spec", fmt.Sprintf("event %d is number %d of its window (Burst=%d), no NextSampler, but admitted", i, wSeen, top.Burst)+via, false)
 						break
 					}
 				} else if nextCalls != 1 || nextRes != adm {
-					viol("burst-window", "burst-window-spec", fmt.Sprintf("event %d beyond the burst: NextSampler calls=%d result=%v admitted=%v", i, nextCalls, nextRes, adm), nil)
+					viol("burst-window", "burst-window-spec", fmt.Sprintf("event %d beyond the burst: NextSampler calls=%d result=%v admitted=%v", i, nextCalls, nextRes, adm)+via, nil)
 					break
 				}
 			}
@@ -555,7 +660,7 @@ func runC13(c *Ctx) {
 	}
 	// corpus first: the K5 neighbourhood as an ordinary correspondence case (the model has the wrap)
 	emit(gateCfg{HasWriter: true, Level: -1, Global: -1, Sampler: &SCfg{Kind: "basic", N: 3, Cnt: math.MaxUint32 - 3}},
-		[]ev{{0, 1}, {0, 1}, {0, 1}, {0, 1}, {0, 1}, {0, 1}})
+		[]ev{{Now: 0, Lvl: 1}, {Now: 0, Lvl: 1}, {Now: 0, Lvl: 1}, {Now: 0, Lvl: 1}, {Now: 0, Lvl: 1}, {Now: 0, Lvl: 1}})
 
 	// 1. bounded-exhaustive
 	clock := []int64{0, 3, 10, 13, 20}
@@ -586,7 +691,7 @@ func runC13(c *Ctx) {
 			return
 		}
 		for _, t := range clock {
-			rec(append(append([]ev{}, h...), ev{t, 1}), n, f)
+			rec(append(append([]ev{}, h...), ev{Now: t, Lvl: 1}), n, f)
 		}
 	}
 	for _, cfg := range cfgs {
@@ -598,9 +703,54 @@ func runC13(c *Ctx) {
 	for n := uint32(0); n <= 5; n++ {
 		h := make([]ev, 13)
 		for i := range h {
-			h[i] = ev{int64(i), c13levels[i%len(c13levels)]}
+			h[i] = ev{Now: int64(i), Lvl: c13levels[i%len(c13levels)]}
 		}
 		emit(gateCfg{HasWriter: true, Level: -128, Global: -128, Sampler: &SCfg{Kind: "basic", N: n}}, h)
+	}
+	// 1b. every entry point that ends in the sampler x counting samplers: k events through one entry point
+	// (and the entry point alternating with Info()) get the sampler's documented share, one slot per event
+	{
+		n := 0
+		var scfgs []*SCfg
+		for _, N := range []uint32{1, 2, 3, 5} {
+			scfgs = append(scfgs, &SCfg{Kind: "basic", N: N})
+		}
+		for _, B := range []uint32{1, 2, 4} {
+			scfgs = append(scfgs, &SCfg{Kind: "burst", Burst: B, Period: 10})
+			scfgs = append(scfgs, &SCfg{Kind: "burst", Burst: B, Period: 10, Next: &SCfg{Kind: "basic", N: 2}})
+		}
+		ents := append([]struct {
+			name string
+			lvl  int
+		}{{"", -1}, {"", 0}, {"", 1}, {"", 2}, {"", 3}, {"", 4}, {"", 5}, {"", 6}, {"", -3}, {"", 9}}, entryLevels...)
+		for _, en := range ents {
+			for _, sc := range scfgs {
+				for mix := 0; mix < 2; mix++ {
+					h := make([]ev, 13)
+					for i := range h {
+						h[i] = ev{Now: int64(i * 2), Lvl: en.lvl, Entry: en.name}
+						if mix == 1 && i%2 == 1 {
+							h[i] = ev{Now: int64(i * 2), Lvl: 1, Entry: "Info"}
+						}
+					}
+					emit(gateCfg{HasWriter: true, Level: -128, Global: -128, Sampler: sc}, h)
+					n++
+				}
+			}
+			// the same under a LevelSampler (named levels only have slots)
+			if en.lvl >= -1 && en.lvl <= 3 {
+				ls := &SCfg{Kind: "level"}
+				ls.Sub[en.lvl+1] = &SCfg{Kind: "basic", N: 3}
+				h := make([]ev, 9)
+				for i := range h {
+					h[i] = ev{Now: int64(i), Lvl: en.lvl, Entry: en.name}
+				}
+				emit(gateCfg{HasWriter: true, Level: -128, Global: -128, Sampler: ls}, h)
+				n++
+			}
+		}
+		c.Res.ExtraCoverage["entry_point_histories"] = n
+		c.Res.ExtraCoverage["entry_points"] = len(entryLevels) + 1
 	}
 	c.Res.ExtraCoverage["bounded_exhaustive_cases"] = exh
 	c.Res.ExtraCoverage["bounded_exhaustive_max_len"] = maxLen
